@@ -508,6 +508,15 @@ func (f *frame) canInline(callee *ssa.Function) bool {
 	if g.NoInline[FuncName(callee)] {
 		return false
 	}
+	if callee.Parent() == f.fn {
+		// closures of the function under evaluation are part of its body
+		for _, s := range g.stack {
+			if s == callee {
+				return false
+			}
+		}
+		return true
+	}
 	for _, s := range g.stack {
 		if s == callee {
 			return false
@@ -937,6 +946,12 @@ func allocIsLocal(a *ssa.Alloc) bool {
 					return false
 				}
 			case *ssa.DebugRef:
+			case *ssa.MakeClosure:
+				// captured by a closure that is only called directly (or
+				// deferred) and that only loads/stores the cell
+				if depth != 0 || !closureKeepsLocal(r, v) {
+					return false
+				}
 			default:
 				return false
 			}
@@ -944,6 +959,51 @@ func allocIsLocal(a *ssa.Alloc) bool {
 		return true
 	}
 	return ok(a, 0)
+}
+
+func closureKeepsLocal(mc *ssa.MakeClosure, cell ssa.Value) bool {
+	if rs := mc.Referrers(); rs != nil {
+		for _, r := range *rs {
+			switch r := r.(type) {
+			case *ssa.Call:
+				if r.Call.Value != ssa.Value(mc) {
+					return false
+				}
+			case *ssa.Defer:
+				if r.Call.Value != ssa.Value(mc) {
+					return false
+				}
+			case *ssa.DebugRef:
+			default:
+				return false
+			}
+		}
+	}
+	fn := mc.Fn.(*ssa.Function)
+	for i, b := range mc.Bindings {
+		if b != cell {
+			continue
+		}
+		fv := fn.FreeVars[i]
+		if rs := fv.Referrers(); rs != nil {
+			for _, r := range *rs {
+				switch r := r.(type) {
+				case *ssa.UnOp:
+					if r.Op != token.MUL {
+						return false
+					}
+				case *ssa.Store:
+					if r.Val == ssa.Value(fv) {
+						return false
+					}
+				case *ssa.DebugRef:
+				default:
+					return false
+				}
+			}
+		}
+	}
+	return true
 }
 
 func convertConst(v constant.Value, t types.Type) (constant.Value, bool) {
